@@ -421,13 +421,21 @@ def aggregate_records(ctx) -> None:
     loopid = f"loop@{lp.id}"
     for cs in apps:
         a = fv.res.resolve(cs.call.args[0], cs.node)
-        conv = isinstance(a, ast.Call) and call_fname(a) == "int_to_tip" and a.args and elem_parts(a.args[0]) is not None and elem_parts(a.args[0])[0] == loopid
-        plain = elem_parts(a) is not None and elem_parts(a)[0] == loopid
-        facts = fv.rfacts_at(cs.node)
-        is_tip = any(isinstance(r, ast.Call) and call_fname(r) == "isinstance" and pol and len(r.args) == 2 and is_name(r.args[1], "Tip") for r, pol, raw in facts)
-        is_int_not_tip = any(isinstance(r, ast.Call) and call_fname(r) == "isinstance" and pol and len(r.args) == 2 and is_name(r.args[1], "int") for r, pol, raw in facts) and \
-            any(isinstance(r, ast.Call) and call_fname(r) == "isinstance" and not pol and len(r.args) == 2 and is_name(r.args[1], "Tip") for r, pol, raw in facts)
-        ok = (conv and is_int_not_tip) or (plain and is_tip)
+        facts0 = [(r, pol) for r, pol, raw in fv.rfacts_at(cs.node)]
+        # the appended value may be a temporary that was bound on several paths (a converted element on one, the element
+        # itself on another): every alternative is judged under its own conditions
+        alts = [([], a)]
+        if is_sym(a, "phi") or not (isinstance(a, ast.Call) or elem_parts(a) is not None):
+            alts = [(list(conds), val) for conds, val in fv.alternatives(cs.call.args[0], cs.node)] or alts
+        ok = True
+        for conds, a in alts:
+            conv = isinstance(a, ast.Call) and call_fname(a) == "int_to_tip" and a.args and elem_parts(a.args[0]) is not None and elem_parts(a.args[0])[0] == loopid
+            plain = elem_parts(a) is not None and elem_parts(a)[0] == loopid
+            facts = facts0 + [(r, pol) for r, pol in conds]
+            is_tip = any(isinstance(r, ast.Call) and call_fname(r) == "isinstance" and pol and len(r.args) == 2 and is_name(r.args[1], "Tip") for r, pol in facts)
+            not_tip = any(isinstance(r, ast.Call) and call_fname(r) == "isinstance" and not pol and len(r.args) == 2 and is_name(r.args[1], "Tip") for r, pol in facts)
+            is_int = any(isinstance(r, ast.Call) and call_fname(r) == "isinstance" and pol and len(r.args) == 2 and is_name(r.args[1], "int") for r, pol in facts)
+            ok = ok and ((conv and is_int and not_tip) or (plain and is_tip))
         ctx.rep.check(ok, rule, f"{f.qualname}/member[{show(cs.call.args[0])[:30]}]", "numbers are converted with int_to_tip, Tip members are taken as they are",
                       f"`{stmt_key(cs.call)[:60]}`: a collection element enters the mask without the number->Tip conversion (or a Tip member is converted again)", where=f.where(cs.call))
     # the fold
@@ -437,6 +445,13 @@ def aggregate_records(ctx) -> None:
         ctx.rep.inconclusive(rule, f.qualname + "/fold", f"expected one fold of `{L}` into the mask, found {len(folds)}")
         return
     kind = fold_kind(folds[0].ast.value, L)
+    fv_ = folds[0].ast.value
+    if kind == "unknown" and isinstance(fv_, ast.Call) and call_fname(fv_) in ("set", "frozenset") and len(fv_.args) == 1 and is_name(fv_.args[0], L) and isinstance(folds[0].ast, ast.Assign):
+        # unique = set(tips); mask = sum(unique)
+        U = folds[0].ast.targets[0].id
+        nxt = [n for n in fv.cfg.nodes if n.kind == "stmt" and isinstance(n.ast, (ast.Assign, ast.Return)) and n.ast.value is not None and any(is_name(s_, U) for s_ in ast.walk(n.ast.value)) and n.id != folds[0].id]
+        if len(nxt) == 1 and isinstance(nxt[0].ast.value, ast.Call) and call_fname(nxt[0].ast.value) == "sum" and len(nxt[0].ast.value.args) == 1 and is_name(nxt[0].ast.value.args[0], U):
+            kind = "sum-set"
     ctx.rep.check(kind in ("sum-set", "or"), rule, f"{f.qualname}/fold", f"mask = {kind} of the members (idempotent on repeats)",
                   f"the mask is `{show(folds[0].ast.value)}`: a plain sum counts a repeated tip twice (tips [1, 1] give the mask of tip 2)" if kind == "sum" else f"unrecognised fold `{show(folds[0].ast.value)}`", where=f.where(folds[0].ast))
     ctx.rep.check(lp.id in fv.cfg.completed_loops_at(folds[0].id), rule, f"{f.qualname}/fold-after-loop", "the fold runs after all members were converted", "the fold is not placed after the conversion loop", where=f.where(folds[0].ast))
@@ -660,6 +675,10 @@ def aggregate_evo(ctx) -> None:
             ctx.rep.inconclusive(rule, f"{f.qualname}/mask", f"cannot classify how the tip mask `{show(first)[:40]}` is folded", where=w)
         # the folded sequence is the validator's tips output
         if seq is not None:
+            # [tip.value for tip in <tips>]: the values of the same tips, element by element
+            if is_sym(seq, "comp") and len(seq.args) == 3 and isinstance(seq.args[0], ast.Constant) and seq.args[0].value in ("ListComp", "GeneratorExp") and is_sym(seq.args[2], "gen") \
+                    and len(seq.args[2].args) == 1 and isinstance(seq.args[1], ast.Attribute) and seq.args[1].attr == "value" and is_sym(seq.args[1].value, "elem"):
+                seq = seq.args[2].args[0]
             ok_seq = is_sym(seq, "unpack") or (isinstance(seq, ast.Name))
             src = seq.args[0] if is_sym(seq, "unpack") else None
             ok_seq = ok_seq and (src is None or (isinstance(src, ast.Call) and call_fname(src) == validator_name))
@@ -769,10 +788,20 @@ def slots(ctx) -> None:
         vals = [e.value for e in slot_list.elts]
         ctx.rep.check(vals == want, rule, f"{f.qualname}/slot-list", "slot list = ascending Tip values 1..128", f"slot list is {vals}; the i-th volume slot belongs to tip i, so it must be the ascending Tip values {want}", where=f.where(lp.ast))
         body = fv.cfg.loop_body[lp.id]
-        augs = [n for n in (fv.cfg.nodes[i] for i in body) if n.kind == "stmt" and isinstance(n.ast, ast.AugAssign) and isinstance(n.ast.op, ast.Add)
-                and (isinstance(n.ast.value, ast.JoinedStr) or (isinstance(n.ast.value, ast.Constant) and isinstance(n.ast.value.value, str)))]
+        def _texty(v):
+            return isinstance(v, ast.JoinedStr) or (isinstance(v, ast.Constant) and isinstance(v.value, str))
+
+        augs = [n for n in (fv.cfg.nodes[i] for i in body) if n.kind == "stmt" and isinstance(n.ast, ast.AugAssign) and isinstance(n.ast.op, ast.Add) and _texty(n.ast.value)]
+        if not augs:
+            # the slot strings collected in a list that is joined afterwards: items.append("0,") / items.append(f'"{v}",')
+            augs = [n for n in (fv.cfg.nodes[i] for i in body) if n.kind == "stmt" and isinstance(n.ast, ast.Expr) and isinstance(n.ast.value, ast.Call) and isinstance(n.ast.value.func, ast.Attribute)
+                    and n.ast.value.func.attr == "append" and len(n.ast.value.args) == 1 and _texty(n.ast.value.args[0])]
         tests = [n for n in (fv.cfg.nodes[i] for i in body) if n.kind == "test"]
-        ok = len(augs) == 2 and len(tests) == 1 and len({show(a.ast.target) for a in augs}) == 1 and not fv.cfg.loop_has_break.get(lp.id)
+
+        def _sink(a):
+            return show(a.ast.target) if isinstance(a.ast, ast.AugAssign) else show(a.ast.value.func.value)
+
+        ok = len(augs) == 2 and len(tests) == 1 and len({_sink(a) for a in augs}) == 1 and not fv.cfg.loop_has_break.get(lp.id)
         if ok:
             pols = set()
             for a in augs:
